@@ -366,6 +366,9 @@ def gen_case(rng, stratum, pairing, tier='quick', delays=None, adversary=None, u
                    'cold': {'capacity': cold_cap, 'max_data_rate': cold_rate}},
         'alg': alg, 'static': static, 'static_est': static_est, 'delays': dl,
         'adversary': adversary, 'permute': None,
+        # Buffer.threshold is a public attribute: with tiering switched off the tight-buffer
+        # states that the known tiering defects (K1a/K1b) normally cut short can be explored
+        'tiering_off': bool(st in ('tight', 'refuse') and rng.random() < 0.4),
     }
     if unit is not None:
         rescale_units(case, unit, offgrid=rng)
